@@ -2,12 +2,12 @@
 CHT = 'std::__n4861::coroutine_handle<void>'
 DTYPES = {'CH': CHT, 'DQCH': 'std::deque<%s, std::allocator<%s > >' % (CHT, CHT)}
 DQB = [r'^std::deque<std::__n4861::coroutine_handle<void>']
-SCEN = ['dbg1', 'dbg2', 'dbg3', 'dbg4', 'dbg5', 'start_value', 'start_throw', 'start_promise', 'start_claimed', 'detach', 'never_started', 'join', 'future_ctor', 'susp_resolved_later', 'susp_dropped', 'nested', 'void']
+SCEN = ['dbg6', 'dbg1', 'dbg2', 'dbg3', 'dbg4', 'dbg5', 'start_value', 'start_throw', 'start_promise', 'start_claimed', 'detach', 'never_started', 'join', 'future_ctor', 'susp_resolved_later', 'susp_dropped', 'nested', 'void']
 GV = {'GV_%s' % g: g for g in ('g_body_runs', 'g_guard_ctor', 'g_guard_dtor', 'g_seen_value', 'g_seen_exc', 'g_seen_canceled')}
 GV['GV_qinst'] = '_ZN5cocls10coro_queue8instanceE'
 def drive(s):
     return dict(name='drive_' + s, driver='c04_async.cpp', roots=['^drive_%s$' % s], names={}, types=DTYPES, globals=GV, boundary=DQB, lib=['rt_core.c', 'rt_atomic_seq.c', 'model_dq_ring.c'],
-                spec=['C04/h_drive.c'], harness='h_drive', defines=['DRV_%s 1' % s, 'CV_NO_SPURIOUS_CAS 1'], unwind=6, object_bits=11, cbmc_flags=['--max-field-sensitivity-array-size', '4096'], kind='bounded', timeout=300,
+                spec=['C04/h_drive.c'], harness='h_drive', defines=['DRV_%s 1' % s, 'CV_NO_SPURIOUS_CAS 1'], unwind=6, object_bits=11, cbmc_flags=['--max-field-sensitivity-array-size', '4096'], kind='bounded', timeout=200,
                 bounded='scenario %s: one start mode x completion mode of scripted coroutines, symbolic value, depth<=2, <=1 suspension' % s,
                 under_contract=['drive of lowered real code: async<T>::start/start(promise)/detach/join/co_await, async_promise, final_awaiter, future, coro_queue'])
 UNITS = [drive(s) for s in SCEN]
